@@ -20,7 +20,9 @@ CHECKS = {
             "(up to renaming of unbound variables) must agree, for canonical, renamed and parsed encodings (head/goal case via f(list)).", E1_NOTE, "§2 E1, §3 C07"),
     "C08": ("e1", "model_checking", "explicit-state search over unification histories, acyclicity invariant on every reached state",
             "Every substitution set reached in the E1 spaces (including the alias space: depth 3-4 histories over three variables) is checked for "
-            "binding cycles; already-aliased operands must add no binding; the engine's own resolver must terminate and agree with the bindings.", E1_NOTE, "§2 E1, §3 C08"),
+            "binding cycles; already-aliased operands must add no binding; the engine's own resolver must terminate and agree with the bindings. "
+            "Second part (programs that alias variables through rule heads): the alias, list/recursion and non-ground-fact program families are run on the real solver "
+            "and every answer's substitution set is checked for cycles.", E1_NOTE, "§2 E1, §3 C08"),
     "C09": ("e1", "model_checking", "explicit-state search over real substitution sets, `$_` clauses checked on every transition",
             "All transitions with `$_` as operand, argument, list element or tail: no binding to `$_` is ever created, a top-level `$_` leaves the "
             "substitution set unchanged, and success equals the reference's wildcard reading.", E1_NOTE, "§2 E1, §3 C09"),
@@ -48,10 +50,12 @@ CHECKS.update({
             "print/print_list/nl among backtracking goals: the text written during each next_solution call (fd 1 redirected to a memfd) must equal the reference's trace slice.", E2_NOTE, "§2 E2, §3 C04"),
     "C05": ("e2", "model_checking", "all E2 families, every history continued 3 calls past the first 'no more'",
             "Every history of every family (reduced bounds) is re-asked three times after exhaustion: each call must return None and write nothing.", E2_NOTE, "§2 E2, §3 C05"),
-    "C10": ("e2", "model_checking", "all E2 families with a get_rule probe after every call (freshness of renamed variables)",
-            "After every next_solution call a rule is fetched mid-search; none of its fresh variable ids may be live in the answer's substitution set or the query.", E2_NOTE, "§2 E2, §3 C10"),
-    "C11": ("e2", "model_checking", "metamorphic: every history re-run under three alpha-renamings of the clauses",
-            "Each program is re-run with (a) suffixed names, (b) every clause using the query's variable names, (c) $X/$Y swapped; answers (up to renaming), order and output must be identical.", E2_NOTE, "§2 E2, §3 C11"),
+    "C10": ("e2", "model_checking", "bounded-exhaustive terms / rules / queries renamed by the real code and compared structurally; all E2 families with a get_rule probe after every call",
+            "(i) every term of the grammar (depth <= 2, thorough 3), every element sequence <= 4 as a list (with / without tail, inside a complex term), every rule of the rule grammar and every query is renamed "
+            "by recreate_variables / get_rule / make_query / parse_query, once and twice: with ids erased the result must be identical to the input (derived PartialEq: list node structure, counts, tail markers, goal tree), "
+            "same name <=> same id, every id fresh. (ii) after every next_solution call of every E2 family (incl. non-ground facts) a rule is fetched mid-search; none of its fresh ids may be live in the answer's substitution set or the query.", E2_NOTE, "§2 E2, §3 C10"),
+    "C11": ("e2", "model_checking", "metamorphic: every history re-run under four alpha-renamings of the clauses",
+            "Each program is re-run with (a) suffixed names, (b) every clause using the query's variable names, (c) $X/$Y swapped, (d) names that are pairwise distinct across clauses and the query; answers (up to renaming), order and output must be identical.", E2_NOTE, "§2 E2, §3 C11"),
 })
 
 E3_NOTE = ("Trusted base: the reference built-ins harness/src/refbuiltins.rs (written from the statements: checked i64 / f64 folds, Rust's own "
@@ -92,7 +96,30 @@ CHECKS.update({
             "left/right operand of `=`, and query argument.", E4_NOTE, "§2 E4, §3 C20"),
     "C21": ("e4", "model_checking", "programs of 1-3 grammar rules x all (capped) subsets of legal break points x indentation / blank-line / comment styles, loaded by the real file reader vs rule-by-rule parse",
             "About 10^6 generated files per quick run: every rule of the grammar (plus float / infix / quoted extras and the repository's own rules) alone with every subset of break points after - , ; = (capped at 16; 64 thorough) "
-            "and every style on the fully broken layout; pairs and triples with sampled layouts. load_kb_from_file must give exactly the rules parse_rule gives, in order, or (never observed) reject the file.", E4_NOTE, "§2 E4, §3 C21"),
+            "and every style on the fully broken layout (indentation, blank lines between rules and inside a rule, comment lines between and inside rules, trailing comments); pairs and triples with sampled layouts, "
+            "also spread over two sources (first k rules already in the knowledge base via add_rules or via a file of their own). load_kb_from_file must give exactly the rules parse_rule gives, in order, or (never observed) reject the file.", E4_NOTE, "§2 E4, §3 C21"),
+})
+
+
+TM_NOTE = ("Trusted base: shuttle's scheduler interface and its Mutex/Condvar/mpsc/thread models (sequentially consistent); the virtual clock and the timed wait built on them "
+           "(harness_e5/shim/verif_sync); the generated shim is thread_timer 0.3.0's own source with three `use` lines rewritten (hash-checked by harness_e5/gen_shim.sh); "
+           "the five hook events in src/time_out.rs (cfg suiron_verif) are the only places where time may pass inside a search; the reference interpreter for the expected answers. "
+           "Bounds: 2-3 tasks, preemption and time-deviation bounds as listed in the evidence; real OS timing is covered only by the conformance runs and the real-time session histories.")
+
+CHECKS.update({
+    "C22": ("tm", "model_checking", "stateless exploration of the real code under a preemption- and time-deviation-bounded scheduler (two-session scenarios), plus exhaustive session histories in fresh processes with the real timer",
+            "E5: scenarios S4 S5 S5b S8 S9 S10 (a session, idle time, a later session; earlier session fast, timed out, via solve or solve_all; later session via solve_all or next_solution, with variables or ground): every schedule within the bounds, "
+            "time allowed to pass at every query_stopped() check; the later session must give its stand-alone result. Sessions: every history of <= 2 sessions over 31 sessions (7 fast queries x 4 modes, 3 slow), "
+            "length 3 over a sub-alphabet (thorough: all with <= 1 slow session, length 4 fast), each in a fresh process with the real 1 s timer, compared with the reference answers.", TM_NOTE, "§2 E5, §2 E2 sessions, §3 C22"),
+    "C23": ("tm", "model_checking", "stateless exploration of the real solve / solve_all / timer code under a preemption- and time-deviation-bounded scheduler with a virtual clock; real-time conformance runs",
+            "E5: S1 fast solve, S2 fast solve_all, S3/S3b slow solve_all (deadline may pass at any check; one big or several small steps), S4 two sessions, S6 repeated solve with idle time, S7 slow solve, "
+            "S11/S12 a search truncated by the deadline inside not(...). Oracle: answers are a prefix of the reference sequence, complete iff no timeout message, a timeout message only if this call's own deadline passed, "
+            "solve never reports an answer the reference does not have; no deadlock, no panic. Real-time runs with the genuine crate must land in the explored outcome sets.", TM_NOTE, "§2 E5, §3 C23"),
+    "C24": ("miri", "exploration", "bounded-exhaustive corpus of call histories executed under Miri (Stacked Borrows and Tree Borrows, data-race detector on) as the per-execution UB monitor",
+            "The corpus is enumerated from the E2 program families (cut at every position of every and/or shape with caller/sibling wrappers, not, nested and/or, recursion over lists, output, built-ins, non-ground facts), "
+            "each run to exhaustion plus re-asks through next_solution / solve / solve_all / load_kb_from_file, plus histories in which the real 1 s timer fires in the middle of a search and further queries follow. "
+            "Exploration level: the monitor decides each execution, the enumeration bounds what was executed; nothing is claimed beyond the corpus.",
+            "Trusted base: Miri (nightly 1.97) and its experimental aliasing models; leaks are ignored (not UB). Data races: Miri's happens-before detector over the accesses that execute, real thread_timer crate, real time.", "§2 E6, §3 C24"),
 })
 
 NOT_YET = {
@@ -130,7 +157,7 @@ def main():
         "setup_cmd": "./setup.sh",
         "hooks": {
             "guard": "suiron_verif",
-            "enable": "RUSTFLAGS=\"--cfg suiron_verif\" (set by ./check for the E5 harness only; E1-E4 and E6 run the unmodified crate)",
+            "enable": "--cfg suiron_verif, set in harness_e5/.cargo/config.toml ([build] rustflags): only the E5 explorer (C22, C23) builds /repo with the hooks on; E1-E4 and E6 build the unmodified crate",
             "baseline_off_cmd": "cd /repo && cargo nextest run --workspace --no-fail-fast --test-threads 8 --offline",
             "source_commits": hook_commits,
             "add_only": True,
@@ -142,6 +169,10 @@ def main():
              "kind_free_text": "bounded-exhaustive programs x queries x call histories executed on the real engine, each call compared with a reference interpreter"},
             {"name": "e4", "path": "harness/src/e4.rs, harness/src/e4b.rs", "serves_properties": ["C18", "C19", "C20", "C21"],
              "kind_free_text": "bounded-exhaustive strings / grammar derivations / file layouts through the real parsers and file reader"},
+            {"name": "tm", "path": "harness_e5/ (explorer vh5), harness/src/e5run.rs (driver), harness/src/sessions.rs (real-time session histories)", "serves_properties": ["C22", "C23"],
+             "kind_free_text": "stateless model checking of the real code: custom bounded-DFS shuttle scheduler (preemption bound, time-deviation bound, prefix-sharded), virtual clock, real thread_timer source on shuttle primitives; plus exhaustive session histories in forked fresh processes"},
+            {"name": "miri", "path": "harness_miri/ (corpus runner vm), harness/src/miri.rs (corpus generator and driver)", "serves_properties": ["C24"],
+             "kind_free_text": "bounded-exhaustive corpus of call histories under Miri, both aliasing models, sharded over processes"},
         ],
         "checks": checks,
         "not_applicable": na,
